@@ -13,16 +13,19 @@ Ids == 1 .. Tr[1].n
 TInit == tid \in 1 .. Len(Traces) /\ l = 2 /\ Traces[tid][1].a = "cfg" /\ w = W0(1 .. Traces[tid][1].n)
 Fin(e, how) == {e.fin[k].i : k \in {k \in 1 .. Len(e.fin) : e.fin[k].how = how}}
 AllFin(e) == {e.fin[k].i : k \in 1 .. Len(e.fin)}
+Left(e) == {e.left[k] : k \in 1 .. Len(e.left)}
 \* waiters that finished leave their block: remove them
 Leave(w1, ids) == [i \in DOMAIN w1 |-> IF i \in ids THEN [st |-> "none", ph |-> "out"] ELSE w1[i]]
 TNext ==
   /\ l <= Len(Tr)
   /\ LET e == Tr[l] IN
-       \/ e.a = "enter" /\ w[e.i].ph = "out" /\ e.fin = <<>> /\ w' = EnterFn(w, e.i, e.st) /\ e.reg = Registered(w')
+       \/ e.a = "enter" /\ w[e.i].ph = "out" /\ e.fin = <<>> /\ e.left = <<>> /\ w' = EnterFn(w, e.i, e.st) /\ e.reg = Registered(w')
        \* a status event: exactly the registered waiters of that status finish with "got"
-       \/ e.a = "status" /\ Fin(e, "got") = Resolved(w, e.st) /\ AllFin(e) = Fin(e, "got")
-                         /\ w' = Leave(StatusFnW(w, e.st), AllFin(e)) /\ e.reg = Registered(w')
-       \/ e.a = "cancel" /\ w[e.i].ph = "in" /\ AllFin(e) = {e.i} /\ Fin(e, "cancelled") = {e.i}
+       \* (a resolved waiter may stay inside its block: e.left are those that left it in this step)
+       \/ e.a = "status" /\ Fin(e, "got") = Resolved(w, e.st) /\ AllFin(e) = Fin(e, "got") /\ Left(e) \subseteq AllFin(e)
+                         /\ w' = Leave(StatusFnW(w, e.st), Left(e)) /\ e.reg = Registered(w')
+       \/ e.a = "release" /\ w[e.i].ph = "got" /\ e.fin = <<>> /\ Left(e) = {e.i} /\ w' = ExitFn(w, e.i) /\ e.reg = Registered(w')
+       \/ e.a = "cancel" /\ w[e.i].ph # "out" /\ AllFin(e) = {e.i} /\ Fin(e, "cancelled") = {e.i}
                          /\ w' = ExitFn(w, e.i) /\ e.reg = Registered(w')
        \* the waiter's own timeout: only waiters still unresolved can time out
        \/ e.a = "tick" /\ AllFin(e) = Fin(e, "timeout") /\ (\A i \in AllFin(e) : w[i].ph = "in")
